@@ -280,8 +280,25 @@ class Grammar:
     def can_reach(self, typ: str, target: str) -> bool:
         return target in self.reach(typ)
 
-    def can_hold_subquery(self, typ: str) -> bool:
-        return typ == "select_statement" or self.can_reach(typ, "select_statement")
+    def can_hold_subquery(self, typ: str, avoid: frozenset = frozenset()) -> bool:
+        """Can a `typ` node contain a select_statement - when `avoid` is given: on a path that passes none of those types (a cut)?"""
+        if typ == "select_statement":
+            return True
+        if not avoid:
+            return self.can_reach(typ, "select_statement")
+        if typ in avoid:
+            return False
+        seen: set[str] = set()
+        todo = [typ]
+        while todo:
+            t = todo.pop()
+            for c in self.children(t) | self.bracket_children(t):
+                if c == "select_statement":
+                    return True
+                if c not in seen and c not in avoid:
+                    seen.add(c)
+                    todo.append(c)
+        return False
 
     def types(self) -> frozenset:
         return frozenset(self.class_type.values())
